@@ -35,6 +35,9 @@ pub fn core_entry_chains() -> Vec<Vec<u8>> {
 }
 pub fn core_raw_chains() -> Vec<(u64, Vec<u8>)> {
     let mut v: Vec<(u64, Vec<u8>)> = methods(Ty::RE).into_iter().map(|(m, _)| (0, vec![m])).collect();
+    for b in 0..4u64 {
+        v.push((b, vec![RV_INSERT_OTHER]));
+    }
     for b in 1..4u64 {
         v.push((b, vec![RE_OR_INSERT]));
         v.push((b, vec![RO_REMOVE]));
@@ -96,6 +99,14 @@ pub fn block(name: &str, c: &AlphaCtx, out: &mut Vec<Op>) {
                 for (b, ch) in core_raw_chains() {
                     out.push(Op::new(OpK::RawChain, k, raw_arg(b, &ch)));
                 }
+            }
+        }
+        // replace_key / replace_entry on a handle that Entry::insert made from a vacant entry (it has no spare
+        // key; upstream documents a panic): an ordinary panic or a result, never anything worse
+        "nokey" => {
+            for &k in &ks {
+                out.push(Op::new(OpK::EntryChain, k, chain::encode(&[E_INSERT, O_REPLACE_KEY])));
+                out.push(Op::new(OpK::EntryChain, k, chain::encode(&[E_INSERT, O_REPLACE_ENTRY])));
             }
         }
         // the chains that matter for resize bookkeeping
